@@ -547,6 +547,30 @@ func syncProto(repo string) (string, string, error) {
 		return true
 	})
 
+	// structural fact 13: netutil.AuthorityKey - the key of pendingAltSvcs and of the AltSvcJar - is built from the
+	// full authority (AuthorityAddr: host AND port), so what is learned from one origin stays with its authority
+	nu, err := parseGo(repo, "internal/netutil/addr.go")
+	if err != nil {
+		return "", "", err
+	}
+	fAK := funcDecl(nu, "", "AuthorityKey")
+	if fAK == nil {
+		return "", "", fmt.Errorf("internal/netutil/addr.go: AuthorityKey not found")
+	}
+	keyHasPort := false
+	if len(fAK.Body.List) == 1 {
+		if rs, ok := fAK.Body.List[0].(*ast.ReturnStmt); ok && len(rs.Results) == 1 {
+			ast.Inspect(rs.Results[0], func(x ast.Node) bool {
+				if c, ok := x.(*ast.CallExpr); ok {
+					if id, ok := c.Fun.(*ast.Ident); ok && id.Name == "AuthorityAddr" {
+						keyHasPort = true
+					}
+				}
+				return true
+			})
+		}
+	}
+
 	var sb strings.Builder
 	sb.WriteString("(* GENERATED by harness/c12 gosync from transport.go, client.go, internal/http2/http2.go,\n   internal/http3/server.go, internal/http3/roundtrip.go - do not edit *)\n")
 	sb.WriteString("From ReqV Require Import Lib.Bytes.\nImport ListNotations.\n\n")
@@ -571,6 +595,7 @@ func syncProto(repo string) (string, string, error) {
 	fmt.Fprintf(&sb, "(* http2 dialClientConn dials http:// requests (h2c) without the TLS hooks *)\nDefinition h2_plain_dial_for_http : bool := %s.\n", hk.CoqBool(plainFirst))
 	fmt.Fprintf(&sb, "(* every dialClientConn / getStartDialLocked call derives `plain` from the request's scheme (%d call sites) *)\nDefinition h2_plain_from_request_scheme : bool := %s.\n", nCalls, hk.CoqBool(plainFromReq && plainParam))
 	fmt.Fprintf(&sb, "(* connectMethod.key(): the target address is dropped only for plain-http targets behind a proxy (%d guarded clearing(s)) *)\nDefinition pool_key_keeps_https_target : bool := %s.\n", nClear, hk.CoqBool(keyOK && hasAddr))
+	fmt.Fprintf(&sb, "(* netutil.AuthorityKey = scheme + \"://\" + AuthorityAddr(scheme, host): the Alt-Svc bookkeeping is keyed by host AND port *)\nDefinition altsvc_key_has_port : bool := %s.\n", hk.CoqBool(keyHasPort))
 	return "ProtoTables.v", sb.String(), nil
 }
 
